@@ -53,6 +53,7 @@ class LoopInfo:
         self.header = lp["header"]
         self.line = fn.blocks[self.header].term.line()
         self.cls = None
+        self.wrap = None
         self.witness = None
         self.notes = []
         self.narrow = None      # (iv bits, bound bits, bound description) when a counter narrower than its bound is compared after widening
@@ -184,6 +185,60 @@ def fits(fn, F, M, o, bits, at_block, cg=None, depth=0):
                     return True
         return False
     return False
+
+
+_NEG = {"ugt": "ule", "uge": "ult", "ult": "uge", "ule": "ugt", "sgt": "sle", "sge": "slt", "slt": "sge", "sle": "sgt"}
+
+
+def wrap_safe(fn, F, M, cont_pred, lhs, rhs, up, smax, cg, at, cw=None):
+    """the loop continues under `lhs cont_pred rhs` with lhs rising (up) or falling by at most smax per iteration: can lhs get past the bound at all,
+    or would it wrap round inside its type first?  `k <= B` never fails when B is the largest value of the type; `k >= B` never fails for B == 0."""
+    ty = None
+    d = fn.defn(lhs) if not is_const(lhs) else None
+    if d is not None:
+        ty = d.ty
+    if ty is None or ty.endswith("*"):
+        return True                     # pointers: the object ends long before the address space does
+    w = fn.mod.int_bits(ty) or 64
+    strict = cont_pred in ("ult", "slt", "ugt", "sgt")
+    if cw is not None and cw < w and up:
+        # the counter itself is only cw bits wide and is widened for the comparison: it must be able to get past the bound before it wraps to 0
+        if strict and smax == 1:
+            return True                 # k < B in steps of one: whether B fits the counter is the `narrow` question, asked by the caller
+        need = smax or (1 << 16)
+        if is_const(rhs):
+            return const_val(rhs) is not None and 0 <= const_val(rhs) and const_val(rhs) + need <= (1 << cw) - 1
+        iv = interval(fn, F, M, rhs, F.at_block(at))
+        return iv[1] + need <= (1 << cw) - 1
+    if strict and (smax is not None and smax == 1):
+        return True                     # k < B, k += 1: k reaches B exactly
+    signed = cont_pred[0] == "s"
+    if smax is None:
+        smax = 1 << 16                  # a linear form of the counter: some room is needed, how much is not computed
+    if is_const(rhs):
+        c = const_val(rhs)
+        if c is None:
+            return False
+        if signed and c >= (1 << (w - 1)):
+            c -= (1 << w)
+        if not signed and c < 0:
+            c += (1 << w)
+        hi = ((1 << (w - 1)) - 1) if signed else ((1 << w) - 1)
+        lo = -(1 << (w - 1)) if signed else 0
+        return (c + smax <= hi) if up else (c - smax >= lo)
+    iv = interval(fn, F, M, rhs, F.at_block(at))
+    if up:
+        if fits(fn, F, M, rhs, w - 2 if signed else w - 1, at, cg):
+            return True
+        # read as signed the bound has a finite upper end with room to spare (for an unsigned comparison it must also be known non-negative)
+        return iv[1] < (1 << (w - 2)) and (signed or iv[0] >= 0)
+    if signed:
+        return fits(fn, F, M, rhs, w - 2, at, cg) or iv[0] > -(1 << (w - 2))       # a bound far from INT_MIN
+    if iv[0] >= smax:
+        return True
+    # unsigned, counting down to a variable bound: it must be known to be at least smax
+    return any(f[0] in ("uge", "ugt") and M.strip(f[1]) == M.strip(rhs) and is_const(f[2]) and (const_val(f[2]) or 0) >= smax for f in F.at_block(at))
+
 
 
 def _bits_of(fn, o):
@@ -665,6 +720,10 @@ def classify(fn, F, cg=None, exceptions=None):
                             if f[0] in (("uge", "ugt", "sge", "sgt") if up else ("ule", "ult", "sle", "slt")) or \
                                (f[0] == "eq" and steps <= {1, -1}):
                                 wi = widened_iv(fn, M, f[1], p)
+                                if f[0] != "eq" and not wrap_safe(fn, F, M, _NEG[f[0]], f[1], rhs, up, max(abs(x) for x in steps), cg, lp["header"],
+                                                                  cw=wi[0] if wi and wi[0] < wi[1] else None):
+                                    li.wrap = "%s %s %s" % (describe(fn, f[1]), _NEG[f[0]], describe(fn, rhs))
+                                    continue
                                 if wi and up and wi[0] < wi[1] and not fits(fn, F, M, rhs, wi[0], lp["header"], cg):
                                     # a counter of wi[0] bits is compared, after widening, with a wider bound not known to fit: it would wrap first
                                     li.narrow = (wi[0], wi[1], describe(fn, rhs))
@@ -676,9 +735,42 @@ def classify(fn, F, cg=None, exceptions=None):
                         rb = M.strip(rhs) if not is_const(rhs) else None
                         if rb == ("v", p.id) and _invariant(fn, lp, f[1], cg):
                             if f[0] in (("ule", "ult", "sle", "slt") if up else ("uge", "ugt", "sge", "sgt")) or (f[0] == "eq" and steps <= {1, -1}):
+                                swp = {"ult": "ugt", "ule": "uge", "slt": "sgt", "sle": "sge", "ugt": "ult", "uge": "ule", "sgt": "slt", "sge": "sle"}
+                                if f[0] != "eq" and not wrap_safe(fn, F, M, _NEG[swp[f[0]]], rhs, f[1], up, max(abs(x) for x in steps), cg, lp["header"]):
+                                    li.wrap = "%s %s %s" % (describe(fn, rhs), _NEG[swp[f[0]]], describe(fn, f[1]))
+                                    continue
                                 li.cls = "A"
                                 li.witness = "%s steps by %s each iteration; exit when the invariant bound is %s it" % (
                                     fn.var_name(p.id) or "%%%d" % p.id, sorted(steps), f[0])
+                if li.cls is None and up and steps == {1} and not p.ty.endswith("*"):
+                    # mask exit: the loop is left at the first k with a bit outside m, `(k & ~m) != 0`, and m is known to fit in fewer bits than k has:
+                    # k = 2^bits(m) has such a bit, and k gets there because it steps by one from a start below that
+                    kw = fn.mod.int_bits(p.ty) or 0
+                    starts = [v for v, b in p.incoming if b not in body]
+                    for (b, s) in lp["exits"]:
+                        for f in F.edge_facts(b, s):
+                            if f[0] != "ne" or not is_const(f[2]) or const_val(f[2]) != 0:
+                                continue
+                            # raw operands (the matcher would strip the very casts that make the mask narrow)
+                            da = fn.defn(f[1])
+                            if da is None or da.is_param or da.op != "and" or (fn.mod.int_bits(da.ty) or 0) != kw:
+                                continue
+                            oth = [o for o in da.ops if o != ("v", p.id)]
+                            if len(oth) != 1:
+                                continue
+                            dx = fn.defn(oth[0])
+                            if dx is None or dx.is_param or dx.op != "xor" or not is_const(dx.ops[1]) or const_val(dx.ops[1]) not in (-1, (1 << kw) - 1):
+                                continue
+                            e = {"m": dx.ops[0]}
+                            if not _invariant(fn, lp, e["m"], cg):
+                                continue
+                            for bits in (8, 16, 24, 31):
+                                if bits < kw and fits(fn, F, M, e["m"], bits, lp["header"], cg) and \
+                                        all(is_const(v) and 0 <= const_val(v) <= (1 << bits) for v in starts):
+                                    li.cls = "A"
+                                    li.witness = ("%s steps by one from a start <= 2^%d; exit at the first value with a bit outside the mask %s, which fits %d bits: at the latest at 2^%d" %
+                                                  (fn.var_name(p.id) or "%%%d" % p.id, bits, describe(fn, e["m"]), bits, bits))
+                                    break
                 if li.cls is None:
                     _class_a_latch(fn, F, M, lp, li, p, up, steps, cg)
                 if li.cls:
@@ -889,11 +981,16 @@ def _class_a_latch(fn, F, M, lp, li, p, up, steps, cg):
                 if k is None or k2 is None:
                     continue
                 kk = k - k2
-                if kk == 0:
-                    continue
+                if kk == 0 or k == 0:
+                    continue                 # (the moving side on the right: the swapped orientation looks at it)
                 rising = (kk > 0) == up      # the compared expression rises over the iterations
                 if (rising and pred in good_up) or (not rising and pred in good_dn):
-                    ok = True
+                    sm = max(abs(x) for x in steps) * abs(kk) if abs(kk) == 1 else None
+                    wi = widened_iv(fn, M, lhs, p)
+                    if wrap_safe(fn, F, M, pred, lhs, rhs, rising, sm, cg, lp["header"], cw=wi[0] if wi and wi[0] < wi[1] else None):
+                        ok = True
+                    else:
+                        li.wrap = "%s %s %s" % (describe(fn, lhs), pred, describe(fn, rhs))
         if not ok:
             all_ok = False
     if all_ok and lp["latches"]:
@@ -910,6 +1007,11 @@ def _class_a_latch(fn, F, M, lp, li, p, up, steps, cg):
                 continue
             rising = ((k - k2) > 0) == up
             if (rising and f[0] in good_dn) or (not rising and f[0] in good_up):
+                sm = max(abs(x) for x in steps) if abs(k - k2) == 1 else None
+                wi = widened_iv(fn, M, f[1], p)
+                if not wrap_safe(fn, F, M, _NEG[f[0]], f[1], f[2], rising, sm, cg, lp["header"], cw=wi[0] if wi and wi[0] < wi[1] else None):
+                    li.wrap = "%s %s %s" % (describe(fn, f[1]), _NEG[f[0]], describe(fn, f[2]))
+                    continue
                 li.cls = "A"
                 li.witness = "%s steps by %s each iteration; exit when a linear expression of it crosses an invariant bound (%s)" % (name, sorted(steps), f[0])
                 return
@@ -1019,6 +1121,10 @@ def _more_classes(fn, F, M, lp, li, phis, cg):
                 for (b, s) in lp["exits"]:
                     for f in F.edge_facts(b, s):
                         if M.strip(f[1]) in tested and _invariant(fn, lp, f[2], cg) and f[0] in good:
+                            wi = widened_iv(fn, M, f[1], p)
+                            if not wrap_safe(fn, F, M, _NEG[f[0]], f[1], f[2], not down, None, cg, lp["header"], cw=wi[0] if wi and wi[0] < wi[1] else None):
+                                li.wrap = "%s %s %s" % (describe(fn, f[1]), _NEG[f[0]], describe(fn, f[2]))
+                                continue
                             li.cls = "A"
                             li.witness = "%s only %s (strictly, on every path through the body and its inner loops); exit when it is %s the invariant bound" % (
                                 name, "decreases" if down else "increases", f[0])
@@ -1027,7 +1133,9 @@ def _more_classes(fn, F, M, lp, li, phis, cg):
                 for latch in lp["latches"]:
                     fl = F.on_edge(latch, lp["header"])
                     mine = {("v", p.id)} | {M.strip(v) for v, b in backs if b == latch}
-                    if not any(M.strip(f[1]) in mine and _invariant(fn, lp, f[2], cg) and f[0] in (("sge", "sgt", "uge", "ugt") if down else ("sle", "slt", "ule", "ult")) for f in fl):
+                    if not any(M.strip(f[1]) in mine and _invariant(fn, lp, f[2], cg) and f[0] in (("sge", "sgt", "uge", "ugt") if down else ("sle", "slt", "ule", "ult")) and
+                               wrap_safe(fn, F, M, f[0], f[1], f[2], not down, None, cg, lp["header"],
+                                         cw=(lambda wi: wi[0] if wi and wi[0] < wi[1] else None)(widened_iv(fn, M, f[1], p))) for f in fl):
                         ok_l = False
                 if ok_l and lp["latches"]:
                     li.cls = "A"
